@@ -1,3 +1,197 @@
-From Coq Require Import ZArith QArith List Bool.
+(* C11 — EigenSolve returns genuine, normalised, ordered eigenpairs.
+   Statements only; every proof is `exact <lemma of Proofs/EigP.v>`; Print Assumptions under each.
+
+   Setting (Model/Eig.v).  K is the scalar type with the ring signature `Num K`; `num_ring K` / `num_field K` say
+   that it is a commutative ring / field with Leibniz equality (instances: R, and RC = pairs of reals = the complex
+   numbers, see C11_complex_numbers_are_a_field).  The library eigen-decomposition is an ORACLE: its raw result
+   (W, Qm) (eigenvalues, matrix whose columns are the vectors, as a list of rows) enters as a variable and its
+   contract  `contract A M W Qm`  (A q_i = lambda_i M q_i for every column, one column per eigenvalue) is a premise.
+   `postprocess ops sf B W Qm` is everything EigenSolve._response does after the library call: W[isort], Q[:, isort]
+   for isort = sf W Qm (the sorting function), then the normalisation loop with the assertion; it returns
+   `Ok (W', Q')` or `Err` (AssertionError / IndexError).  `response` / `run` model the dispatch and the state machine
+   of _sparse_eigs and return the library call the module issues.
+   np.sqrt is the field `ksqrt` of `ops` with the contract `sqrt_contract` (s*s = v, v <> 0 on values that pass the
+   assertion); over R it is the real square root and the contract is proved (no premise left). *)
+From Coq Require Import ZArith QArith Reals List Bool Permutation Sorted.
 From Pymoto Require Import Base.Num Base.QMat Model.Eig Proofs.EigP.
 Import ListNotations.
+
+(* ---- genuine eigenpairs --------------------------------------------------------------------------- *)
+(* permutation / selection of columns by ANY sorting function that returns valid indices, followed by the scaling
+   of every column, preserves the oracle contract: over any commutative ring (real or complex data) *)
+Theorem C11_postprocess_keeps_eigenpairs :
+  forall (K : Type) (N : Num K) (ops : EigOps K), num_ring K ->
+  forall (sf : sortfn) (A : mat) (B : option mat) (W : list K) (Qm : mat) (W' : list K) (Q' : mat),
+    contract A B W Qm -> postprocess ops sf B W Qm = Ok (W', Q') -> contract A B W' Q'.
+Proof. exact (fun K N ops Rth => @postprocess_keeps_eigenpairs K N ops Rth). Qed.
+Print Assumptions C11_postprocess_keeps_eigenpairs.
+
+(* the returned vectors are non-zero whenever the library's are (the scale factor is invertible) *)
+Theorem C11_eigenvectors_stay_nonzero :
+  forall (K : Type) (N : Num K) (ops : EigOps K), num_field K -> sqrt_contract ops ->
+  forall (sf : sortfn) (B : option mat) (W : list K) (Qm : mat) (W' : list K) (Q' : mat),
+    postprocess ops sf B W Qm = Ok (W', Q') ->
+    forall j, (j < length W')%nat ->
+      is_zero_vec (getcol j Q') -> is_zero_vec (getcol (nth j (sf W Qm) O) Qm).
+Proof.
+  exact (fun K N ops Fth Hsq sf B W Qm W' Q' => @postprocess_keeps_nonzero K N ops Fth sf B W Qm W' Q' Hsq).
+Qed.
+Print Assumptions C11_eigenvectors_stay_nonzero.
+
+(* ---- normalisation -------------------------------------------------------------------------------- *)
+(* (sf q)^T B (sf q) = 1 for sf = sgn / s, s^2 = q^T B q <> 0, sgn = +-1: bilinear form, no conjugate, any field *)
+Theorem C11_normalised_vector :
+  forall (K : Type) (N : Num K), num_ring K -> num_field K ->
+  forall (B : option mat) (q : list K) (s sgn : K),
+    nmul s s = bform B q -> bform B q <> nzero -> (sgn = none_ \/ sgn = nopp none_) ->
+    bform B (vscaler (ndiv sgn s) q) = none_.
+Proof. exact (fun K N Rth Fth => @normalised_vector K N Rth Fth). Qed.
+Print Assumptions C11_normalised_vector.
+
+(* ... and that is what the loop of the module does to every returned column (in-place scaling of one column does
+   not disturb the others; the factor of column i is computed from column i of the sorted matrix) *)
+Theorem C11_normalised :
+  forall (K : Type) (N : Num K) (ops : EigOps K), num_ring K -> num_field K -> sqrt_contract ops ->
+  forall (sf : sortfn) (B : option mat) (W : list K) (Qm : mat) (W' : list K) (Q' : mat),
+    postprocess ops sf B W Qm = Ok (W', Q') ->
+    forall j, (j < length W')%nat -> bform B (getcol j Q') = none_.
+Proof.
+  exact (fun K N ops Rth Fth Hsq sf B W Qm W' Q' => @postprocess_normalised K N ops Rth Fth sf B W Qm W' Q' Hsq).
+Qed.
+Print Assumptions C11_normalised.
+
+(* the complex numbers (pairs of reals) satisfy the premises num_ring / num_field of the generic theorems *)
+Theorem C11_complex_numbers_are_a_field : num_ring RC /\ num_field RC.
+Proof. exact (conj num_ring_RC num_field_RC). Qed.
+Print Assumptions C11_complex_numbers_are_a_field.
+
+(* ---- ordering ------------------------------------------------------------------------------------- *)
+(* np.argsort (modelled: stable insertion sort of the indices) returns a permutation and ascending keys, for any
+   total order test `kleb` (<= on reals, lexicographic (re, im) on complex numbers) *)
+Theorem C11_argsort :
+  forall (K : Type) (N : Num K) (ops : EigOps K),
+    (forall a b, kleb ops a b = true \/ kleb ops b a = true) ->
+  forall keys : list K,
+    Permutation (argsort ops keys) (seq 0 (length keys)) /\
+    Sorted (fun a b => kleb ops a b = true) (take (argsort ops keys) keys).
+Proof. exact (fun K N ops tot => @argsort_spec K N ops tot). Qed.
+Print Assumptions C11_argsort.
+
+(* default sorting function: the returned eigenvalues ascend *)
+Theorem C11_sorted :
+  forall (K : Type) (N : Num K) (ops : EigOps K),
+    (forall a b, kleb ops a b = true \/ kleb ops b a = true) ->
+  forall (B : option mat) (W : list K) (Qm : mat) (W' : list K) (Q' : mat),
+    postprocess ops (sort_default ops) B W Qm = Ok (W', Q') ->
+    Sorted (fun a b => kleb ops a b = true) W'.
+Proof. exact (fun K N ops tot => @postprocess_sorted K N ops tot). Qed.
+Print Assumptions C11_sorted.
+
+(* ---- completeness of the dense path --------------------------------------------------------------- *)
+(* a sorting function that returns a permutation (the default does: C11_argsort) loses and duplicates nothing:
+   with the n pairs of LAPACK (length W = n) the output has n pairs, its eigenvalues are a permutation of the
+   library's, and output pair j is library pair isort_j with the vector scaled by its normalisation factor *)
+Theorem C11_dense_complete :
+  forall (K : Type) (N : Num K) (ops : EigOps K),
+  forall (sf : sortfn) (B : option mat) (W : list K) (Qm : mat) (W' : list K) (Q' : mat),
+    Permutation (sf W Qm) (seq 0 (length W)) ->
+    postprocess ops sf B W Qm = Ok (W', Q') ->
+    length W' = length W /\ Permutation W' W /\
+    forall j, (j < length W)%nat ->
+      let i := nth j (sf W Qm) O in
+      (i < length W)%nat /\ nth j W' nzero = nth i W nzero /\
+      getcol j Q' = vscaler (norm_factor ops B (getcol i Qm)) (getcol i Qm).
+Proof. exact (fun K N ops => @postprocess_complete K N ops). Qed.
+Print Assumptions C11_dense_complete.
+
+Theorem C11_default_sort_is_permutation :
+  forall (K : Type) (N : Num K) (ops : EigOps K),
+    (forall a b, kleb ops a b = true \/ kleb ops b a = true) ->
+  forall (W : list K) (Qm : mat), Permutation (sort_default ops W Qm) (seq 0 (length W)).
+Proof. exact (fun K N ops tot => @default_sort_is_permutation K N ops tot). Qed.
+Print Assumptions C11_default_sort_is_permutation.
+
+(* ---- real data: sign rule, and the real symmetric problem end to end ------------------------------ *)
+Open Scope R_scope.
+
+(* after the sign rule the mean entry of every returned (real) vector is >= 0, whatever the sorting function *)
+Theorem C11_sign :
+  forall (sf : sortfn) (B : option (@mat R)) (W : list R) (Qm : @mat R) (W' : list R) (Q' : @mat R),
+    postprocess opsR sf B W Qm = Ok (W', Q') ->
+    forall j, (j < length W')%nat -> 0 <= navg (getcol j Q').
+Proof. exact postprocess_sign. Qed.
+Print Assumptions C11_sign.
+
+(* real symmetric (generalised) problem with the default sorting function: given the oracle contract on the raw
+   library result, the module output consists of eigenpairs, is B-normalised, ascending, has non-negative means
+   and is the complete (permuted) library spectrum.  sqrt is the real square root: no premise about it. *)
+Theorem C11_real_symmetric_response :
+  forall (A : @mat R) (B : option (@mat R)) (W : list R) (Qm : @mat R) (W' : list R) (Q' : @mat R),
+    contract A B W Qm ->
+    postprocess opsR (sort_default opsR) B W Qm = Ok (W', Q') ->
+    contract A B W' Q' /\
+    (forall j, (j < length W')%nat -> bform B (getcol j Q') = 1) /\
+    Sorted Rle W' /\
+    (forall j, (j < length W')%nat -> 0 <= navg (getcol j Q')) /\
+    length W' = length W /\ Permutation W' W.
+Proof. exact real_symmetric_response. Qed.
+Print Assumptions C11_real_symmetric_response.
+
+(* and the module does return (no AssertionError) when q^T B q > 0 on the library's vectors (B positive definite) *)
+Theorem C11_real_symmetric_returns :
+  forall (B : option (@mat R)) (W : list R) (Qm : @mat R),
+    (forall i, (i < length W)%nat -> 0 < bform B (getcol i Qm)) ->
+    exists W' Q', postprocess opsR (sort_default opsR) B W Qm = Ok (W', Q').
+Proof. exact real_symmetric_total. Qed.
+Print Assumptions C11_real_symmetric_returns.
+Close Scope R_scope.
+
+(* ---- dispatch and the shift-invert state machine -------------------------------------------------- *)
+(* which routine is called: sparse iff A and B are sparse, Hermitian routine iff the flag (given, cached, or
+   detected on A and B at the first call) is set; the flag is stored *)
+Theorem C11_dispatch :
+  forall (K : Type) (N : Num K) (ops : EigOps K) (auto_solver : mat -> bool -> nat)
+         (st : estate) (p : pencil) (st' : estate) (c : libcall),
+    response ops auto_solver st p = (st', Ok c) ->
+    cFun c = (if pencil_sparse p then (if herm_flag ops st p then EIGSH else EIGS)
+              else (if herm_flag ops st p then EIGH else EIG)) /\
+    cA c = pA p /\ sHerm st' = Some (herm_flag ops st p) /\
+    (pencil_sparse p = false -> cM c = pB p /\ cOPinv c = None).
+Proof. exact (fun K N ops au => @dispatch K N ops au). Qed.
+Print Assumptions C11_dispatch.
+
+(* the flag of the first call is used by every later call of the same module (a later matrix of another class is
+   decomposed with the routine of the first class: outside C11, see the report) *)
+Theorem C11_hermitian_flag_cached :
+  forall (K : Type) (N : Num K) (ops : EigOps K) (auto_solver : mat -> bool -> nat)
+         (st : estate) (os : list op) (h : bool),
+    sHerm st = Some h -> sHerm (run_state ops auto_solver st os) = Some h.
+Proof. exact (fun K N ops au => @flag_sticky K N ops au). Qed.
+Print Assumptions C11_hermitian_flag_cached.
+
+(* by induction over ANY sequence of response() calls and m.sigma assignments, with changing A and B: at every
+   sparse call the operator handed to ARPACK as OPinv is the solver updated with the CURRENT A - sigma B
+   (B = I when absent and sigma <> 0; A itself when sigma = 0), and k, sigma, M are the current
+   nmodes (default 6), sigma (default 0) and B (`call_current`, unfolded in Proofs/EigP.v) *)
+Theorem C11_factorisation_current :
+  forall (K : Type) (N : Num K) (ops : EigOps K) (auto_solver : mat -> bool -> nat)
+         (hermitian : option bool) (nmodes : option Z) (sigma : option K) (mode : nat) (os : list op),
+    history_current ops auto_solver (prepare hermitian nmodes sigma mode) os.
+Proof. exact (fun K N ops au => @factorisation_current K N ops au). Qed.
+Print Assumptions C11_factorisation_current.
+
+(* ---- non-vacuity ---------------------------------------------------------------------------------- *)
+(* a concrete real instance meets the premises (contract, positivity) and runs through all clauses *)
+Example C11_nonvacuous_real :
+  contract exA None exW exQ /\
+  exists W' Q', postprocess opsR (sort_default opsR) None exW exQ = Ok (W', Q') /\
+    contract exA None W' Q' /\ Sorted Rle W' /\ Permutation W' exW.
+Proof. exact (conj ex_contract ex_runs). Qed.
+Print Assumptions C11_nonvacuous_real.
+
+(* a three-call history (sigma default, then m.sigma = 2) on the rational instance: the OPinv matrices are
+   A1, A2 and A1 - 2 I *)
+Example C11_nonvacuous_history :
+  ex_opinvs = [Some [[2; 1]; [1; 3]]; Some [[5; 1]; [1; 4]]; None; Some [[0; 1]; [1; 1]]]%Q.
+Proof. exact ex_opinvs_value. Qed.
+Print Assumptions C11_nonvacuous_history.
